@@ -57,6 +57,7 @@ func hangObligations(p *load.Prog, r *oblig.Run, rule string, g *cg.Graph, entri
 		}
 	}
 	sort.Slice(fns, func(i, j int) bool { return fns[i].String() < fns[j].String() })
+	familyCycleObligations(p, r, rule, fns)
 	for _, fn := range fns {
 		// a call of the function to itself that hands on exactly its own parameters repeats the same call for ever (the
 		// stack overflow that ends it cannot be recovered)
@@ -505,4 +506,132 @@ func fmtVerbs(f string) []string {
 		}
 	}
 	return out
+}
+
+// familyCycleObligations: a cycle of functions (A calls B calls ... calls A, static calls and the String()/Error()
+// methods fmt calls for its operands) one of whose calls is made on the result of a relationship accessor. Links between
+// individuals and families can be cyclic in a file, so such a recursion has no bound.
+func familyCycleObligations(p *load.Prog, r *oblig.Run, rule string, fns []*ssa.Function) {
+	in := map[*ssa.Function]bool{}
+	for _, f := range fns {
+		in[f] = true
+	}
+	type edge struct {
+		to   *ssa.Function
+		call ssa.CallInstruction
+		vals []ssa.Value
+	}
+	edges := map[*ssa.Function][]edge{}
+	stringer := func(t types.Type, name string) *ssa.Function {
+		ms := p.SSA.MethodSets.MethodSet(t)
+		for i := 0; i < ms.Len(); i++ {
+			if ms.At(i).Obj().Name() == name {
+				if m := p.SSA.MethodValue(ms.At(i)); m != nil && in[m] {
+					return m
+				}
+			}
+		}
+		return nil
+	}
+	for _, f := range fns {
+		for _, c := range su.Calls(f) {
+			if _, isGo := c.(*ssa.Go); isGo {
+				continue
+			}
+			cc := c.Common()
+			cal := cc.StaticCallee()
+			if cal != nil && in[cal] && cal != f {
+				vals := append([]ssa.Value{}, cc.Args...)
+				edges[f] = append(edges[f], edge{cal, c, vals})
+				continue
+			}
+			if cal != nil && cal.Pkg != nil && cal.Pkg.Pkg.Path() == "fmt" {
+				for _, a := range cc.Args {
+					elems, ok := variadicElems(a)
+					if !ok {
+						continue
+					}
+					for _, e := range elems {
+						if mi, isMI := e.(*ssa.MakeInterface); isMI {
+							for _, name := range []string{"String", "Error"} {
+								if m := stringer(mi.X.Type(), name); m != nil && m != f {
+									edges[f] = append(edges[f], edge{m, c, []ssa.Value{mi.X}})
+								}
+							}
+						}
+					}
+				}
+			}
+		}
+	}
+	// Tarjan
+	index, low := map[*ssa.Function]int{}, map[*ssa.Function]int{}
+	onStack := map[*ssa.Function]bool{}
+	var stack []*ssa.Function
+	comp := map[*ssa.Function]int{}
+	size := map[int]int{}
+	next, ncomp := 0, 0
+	var strong func(v *ssa.Function)
+	strong = func(v *ssa.Function) {
+		next++
+		index[v], low[v] = next, next
+		stack = append(stack, v)
+		onStack[v] = true
+		for _, e := range edges[v] {
+			if index[e.to] == 0 {
+				strong(e.to)
+				if low[e.to] < low[v] {
+					low[v] = low[e.to]
+				}
+			} else if onStack[e.to] && index[e.to] < low[v] {
+				low[v] = index[e.to]
+			}
+		}
+		if low[v] == index[v] {
+			ncomp++
+			for {
+				w := stack[len(stack)-1]
+				stack = stack[:len(stack)-1]
+				onStack[w] = false
+				comp[w] = ncomp
+				size[ncomp]++
+				if w == v {
+					break
+				}
+			}
+		}
+	}
+	for _, f := range fns {
+		if index[f] == 0 {
+			strong(f)
+		}
+	}
+	reported := map[int]bool{}
+	cycles := 0
+	for _, f := range fns {
+		if size[comp[f]] < 2 {
+			continue
+		}
+		for _, e := range edges[f] {
+			if comp[e.to] != comp[f] || reported[comp[f]] {
+				continue
+			}
+			if link := followsFamilyLink(e.vals, 0); link != "" {
+				reported[comp[f]] = true
+				cycles++
+				var members []string
+				for _, g := range fns {
+					if comp[g] == comp[f] {
+						members = append(members, load.FuncName(g))
+					}
+				}
+				sort.Strings(members)
+				if len(members) > 5 {
+					members = append(members[:5], "...")
+				}
+				r.Add(rule, "recursion over family links through "+load.FuncName(f), p.Pos(e.call.Pos()), "cycle of functions").Fail(load.FuncName(f) + " calls " + load.FuncName(e.to) + " on the result of " + link + ", and " + load.FuncName(e.to) + " can lead back to it (cycle: " + strings.Join(members, ", ") + "): links between individuals and families can be cyclic in a file, so the recursion has no bound - a stack overflow, which no recover can stop")
+			}
+		}
+	}
+	r.Extra["function_cycles_over_family_links"] = cycles
 }
